@@ -33,8 +33,19 @@ def with_comments(src):
     lines = src.split("\n")
     out = []
     k = 0
+    prev = None
     for l in lines:
         if len(l) == 0:
+            continue
+        w = l.strip().split(" ")
+        shared = (prev is not None and w[0] == "do" and prev[0] == "do" and len(w) > 1 and len(prev) > 1
+                  and w[1] == prev[1] and w[1][:1].isdigit())
+        prev = w
+        if shared:
+            # no comment between the DO statements of a shared-label nest: that layout is rejected by
+            # fparser when comments are kept (recorded finding of C11)
+            out.append(l)
+            k += 1
             continue
         if k % 3 == 0:
             out.append("! comment %d" % k)
